@@ -10,7 +10,7 @@ def exes():
             "tsan": build.link("tsan-nopool", "c17_tsan", ["kernel.c", "c17_tsan.c"], "-Wl,--wrap=exit -Wl,--wrap=time")}
 def prepare(): exes()
 
-MIX2 = ["plain|plain-latex", "plain|email", "email|email2", "random-foot|random-foot2", "epub|plain", "plain+plain-latex|plain-latex+plain", "epub|email", "critic-a|critic-r", "opml-in|meta", "de|plain", "epub-dir-a|epub-dir-b", "odt-dir-a|epub-dir-b", "img-a|img-b", "raw-a|raw-b", "sink-a|sink-b", "sink-b-latex|sink-a-fodt"]
+MIX2 = ["plain|plain-latex", "plain|email", "email|email2", "random-foot|random-foot2", "epub|plain", "plain+plain-latex|plain-latex+plain", "epub|email", "critic-a|critic-r", "opml-in|meta", "de|plain", "epub-dir-a|epub-dir-b", "odt-dir-a|epub-dir-b", "trans-dir-a|trans-dir-a2", "trans-dir-a|trans-dir-b", "img-a|img-b", "raw-a|raw-b", "sink-a|sink-b", "sink-b-latex|sink-a-fodt"]
 MIX3 = ["plain|plain-latex|plain", "plain|email|plain-latex", "email|email2|random-foot"]
 BOUND2_ONLY = {"email|email2|random-foot"}      # three threads that all draw random numbers: > 2*10^5 schedules at bound 3; explored completely at bound 2
 BENIGN = {"lc_lookup", "yyRuleName", "yyTokenName", "s_error_descs"}
@@ -85,7 +85,7 @@ def run(tier):
     # 2b. the same explorer on a build instrumented with -finstrument-functions: EVERY function entry and return of the library is a scheduling
     #     point; all schedules with at most one preemption (two tiny documents, incl. the text-level CriticMarkup passes, OPML import and metadata queries): catches state shared through a variable the
     #     accessor-level hooks do not know about (a hoisted static buffer, a lazily built table)
-    t2 = time.time(); fmix = ["tiny-a|tiny-b", "tiny-b|tiny-c", "critic-a|critic-r", "opml-in|meta", "img-a|img-b", "raw-a|raw-b"] if tier == "quick" else ["img-a|img-b", "raw-a|raw-b", "raw-b|raw-b", "sink-a|sink-b", "sink-b-latex|sink-a-fodt", "sink-a|sink-b-latex", "tiny-a|tiny-b", "tiny-b|tiny-c", "tiny-a|tiny-c", "tiny-a|tiny-a", "critic-a|critic-r", "critic-r|critic-r", "opml-in|meta", "opml-in|opml-in", "de|tiny-a", "meta|tiny-b"]
+    t2 = time.time(); fmix = ["tiny-a|tiny-b", "tiny-b|tiny-c", "critic-a|critic-r", "opml-in|meta", "img-a|img-b", "raw-a|raw-b", "trans-dir-a|trans-dir-a2"] if tier == "quick" else ["trans-dir-a|trans-dir-a2", "trans-dir-a|trans-dir-b", "img-a|img-b", "raw-a|raw-b", "raw-b|raw-b", "sink-a|sink-b", "sink-b-latex|sink-a-fodt", "sink-a|sink-b-latex", "tiny-a|tiny-b", "tiny-b|tiny-c", "tiny-a|tiny-c", "tiny-a|tiny-a", "critic-a|critic-r", "critic-r|critic-r", "opml-in|meta", "opml-in|opml-in", "de|tiny-a", "meta|tiny-b"]
     lines, errs = run_sched(ex["sched_fn"], 1, dl * 0.4, fmix)
     fsched = 0; fcomplete = True; fdist = 0
     for ln in lines:
